@@ -16,6 +16,7 @@ EXTENDS Integers, Sequences, FiniteSets, TLC
 CONSTANTS Accts, Keys, MaxBal, Vals, MaxSnaps, MaxOps, HistOn,
           CodeIds,   \* contract codes that can be deployed (empty set: no contract life cycle)
           Blocks,    \* BOOLEAN: SetBlock is part of the alphabet
+          MaxDep,    \* deposits: an account has no deposit (-1) or one fee-sharing deposit with 0..MaxDep units left (MaxDep = 0: no deposit calls)
           Ops,       \* the calls that are part of the alphabet (directed generators use a sub-alphabet)
           SnapSlots  \* slots GetSnapshot may write (the others keep the snapshot of the initial, empty state)
 VARIABLES trie,      \* [Accts -> Data \cup {Absent}]   accounts stored in the account trie
@@ -29,7 +30,7 @@ NoVal == 0
 Absent == [absent |-> TRUE]
 \* bal balance, st storage, ct contract account, bl blocked flag (account state bits), nx code id of the pending
 \* next contract, cur code id of the accepted current contract (0 = none)
-EmptyD == [bal |-> 0, st |-> [k \in Keys |-> NoVal], ct |-> FALSE, bl |-> FALSE, nx |-> 0, cur |-> 0]
+EmptyD == [bal |-> 0, st |-> [k \in Keys |-> NoVal], ct |-> FALSE, bl |-> FALSE, nx |-> 0, cur |-> 0, dep |-> -1]
 \* accountData.IsEmpty: balance 0, no storage, not a contract, no state bits
 IsEmpty(d) == d.bal = 0 /\ (\A k \in Keys : d.st[k] = NoVal) /\ ~d.ct /\ ~d.bl
 NotCached == [in |-> FALSE, d |-> EmptyD, sync |-> FALSE, last |-> FALSE]
@@ -66,7 +67,7 @@ FlushSet(t, c, S) == IF S = {} THEN [t |-> t, c |-> c]
 FlushCache == FlushSet(trie, cache, Accts)
 
 -----------------------------------------------------------------------------
-DataJ(d) == [bal |-> d.bal, st |-> d.st, ct |-> d.ct, bl |-> d.bl, nx |-> d.nx, cur |-> d.cur, empty |-> IsEmpty(d)]
+DataJ(d) == [bal |-> d.bal, st |-> d.st, ct |-> d.ct, bl |-> d.bl, nx |-> d.nx, cur |-> d.cur, dep |-> d.dep, empty |-> IsEmpty(d)]
 TrieJ(t) == [a \in Accts |-> IF t[a] = Absent THEN [absent |-> TRUE] ELSE DataJ(t[a]) @@ [absent |-> FALSE]]
 Log(r) == /\ nops' = IF MaxOps = 0 THEN 0 ELSE nops + 1
           /\ hist' = IF HistOn
@@ -102,6 +103,25 @@ Deploy(a, c) == /\ IF View(a).ct THEN Mutate(a, [View(a) EXCEPT !.nx = c], TRUE)
 Accept(a) == /\ IF View(a).ct /\ View(a).nx # 0 THEN Mutate(a, [View(a) EXCEPT !.cur = View(a).nx, !.nx = 0], TRUE)
                 ELSE Mutate(a, View(a), FALSE)
              /\ Log(Rec("accept", a, "", View(a).nx, 0, IF View(a).ct /\ View(a).nx # 0 THEN 1 ELSE 0))
+\* Deposits of a contract account (depositlist.go, term 0 = one deposit object that is updated IN PLACE by the calls below;
+\* a snapshot must own a copy).  dep = -1: no deposit; n >= 0: one deposit with n units left (0 units is still a deposit).
+\* Only contract accounts get deposits (as the deposit handler guarantees): they are never empty.
+AddDeposit(a) == /\ View(a).ct /\ View(a).dep < MaxDep
+                 /\ Mutate(a, [View(a) EXCEPT !.dep = IF @ = -1 THEN 1 ELSE @ + 1], TRUE)
+                 /\ Log(Rec("adddeposit", a, "", 1, 0, 1))
+\* WithdrawDeposit of one unit: fails without a deposit or with 0 units left; withdrawing the last unit leaves an empty deposit
+Withdraw(a) == LET ok == View(a).dep >= 1 IN
+               /\ Mutate(a, IF ok THEN [View(a) EXCEPT !.dep = @ - 1] ELSE View(a), ok)
+               /\ Log(Rec("withdraw", a, "", 1, 0, IF ok THEN 1 ELSE 0))
+\* WithdrawDeposit of everything (nil amount): removes the deposit
+WithdrawAll(a) == LET ok == View(a).dep >= 0 IN
+                  /\ Mutate(a, IF ok THEN [View(a) EXCEPT !.dep = -1] ELSE View(a), ok)
+                  /\ Log(Rec("withdrawall", a, "", View(a).dep, 0, IF ok THEN 1 ELSE 0))
+\* PaySteps with fee sharing: one step at a price of one unit is taken from the deposit (if there is a deposit the account is
+\* marked dirty even when nothing is left to pay with)
+PaySteps(a) == LET has == View(a).dep >= 0 IN
+               /\ Mutate(a, IF View(a).dep >= 1 THEN [View(a) EXCEPT !.dep = @ - 1] ELSE View(a), has)
+               /\ Log(Rec("paysteps", a, "", 1, 0, IF View(a).dep >= 1 THEN 1 ELSE 0))       \* steps paid by the deposit
 \* GetAccountState without a change: only loads the account into the cache
 Touch(a) == /\ cache' = Loaded(cache, a) /\ UNCHANGED <<trie, logical, snaps>>
             /\ Log(Rec("touch", a, "", 0, 0, 0))
@@ -140,6 +160,10 @@ Next == \/ \E a \in Accts, b \in 0..MaxBal : Can /\ "setbalance" \in Ops /\ SetB
         \/ \E a \in Accts, b \in BOOLEAN : Can /\ "setblock" \in Ops /\ SetBlock(a, b)
         \/ \E a \in Accts, c \in CodeIds : Can /\ "deploy" \in Ops /\ Deploy(a, c)
         \/ \E a \in Accts : Can /\ "accept" \in Ops /\ CodeIds # {} /\ Accept(a)
+        \/ \E a \in Accts : Can /\ "adddeposit" \in Ops /\ MaxDep > 0 /\ AddDeposit(a)
+        \/ \E a \in Accts : Can /\ "withdraw" \in Ops /\ MaxDep > 0 /\ Withdraw(a)
+        \/ \E a \in Accts : Can /\ "withdrawall" \in Ops /\ MaxDep > 0 /\ WithdrawAll(a)
+        \/ \E a \in Accts : Can /\ "paysteps" \in Ops /\ MaxDep > 0 /\ PaySteps(a)
         \/ \E s \in SnapSlots : Can /\ "snapshot" \in Ops /\ GetSnapshot(s)
         \/ \E s \in 1..MaxSnaps : Can /\ "reset" \in Ops /\ Reset(s)
         \/ Can /\ "clearcache" \in Ops /\ ClearCache
